@@ -142,6 +142,7 @@ func checkC05(p *Program, r *Report) {
 	// ---- a loaded trie's bitmaps carry the index kinds the readers assume (shared with C01.kind):
 	// the kind engine covers every site that builds or re-builds an index, including load-time fix-ups
 	checkKindsAs(p, r, "C05.kind")
+	checkNilEmpty(p, r, "C05.nil-empty")
 
 	// ---- self-compat and residue
 	vt := buildVersTable(p)
@@ -473,6 +474,9 @@ func controlC05(fx *Program, r *Report) {
 			}
 		})
 		r.Control("C05.determinism.maprange", "mapleak."+tc.fn, flagged == tc.want, fmt.Sprintf("expected flagged=%v: %s", tc.want, detail))
+	}
+	if r.Prop == "C05" {
+		controlNilEmpty(fx, r, "C05.nil-empty")
 	}
 }
 
